@@ -66,39 +66,55 @@ def mkcase(cid, text, files=(), origin="generated", second=None, kind="", pretex
 class C02(Prop):
     id = "C02"
     title = "Compiling any source text is safe and leaves the compiler reusable"
-    lean_modules = ["NV.C02.Props", "NV.C02.Witness"]
+    lean_modules = ["NV.C02.Props", "NV.C02.Witness", "NV.C02.LemmasBuf", "NV.C02.Emit"]
     theorems = ["NV.C02.table_writes_in_bounds", "NV.C02.table_cursors_in_allocation", "NV.C02.mem_block_fits",
                 "NV.C02.include_depth_bounded", "NV.C02.include_stack_empty_after_end", "NV.C02.lexer_flag_clear_after_start", "NV.C02.yytext_in_bounds",
-                "NV.C02.scratch_writes_in_bounds", "NV.C02.scratch_empty_after_destroy", "NV.C02.idents_restored", "NV.C02.locals_reset_after_cleanup"]
+                "NV.C02.scratch_writes_in_bounds", "NV.C02.scratch_empty_after_destroy", "NV.C02.idents_restored", "NV.C02.locals_reset_after_cleanup",
+                "NV.C02.add_input_writes_in_bounds", "NV.C02.add_input_never_nests", "NV.C02.macro_args_in_bounds",
+                "NV.C02.macro_body_in_bounds", "NV.C02.define_text_in_bounds", "NV.C02.terminator_in_bounds",
+                "NV.C02.include_macro_hops_bounded", "NV.C02.reserved_covers_written", "NV.C02.code_writes_in_block"]
     witness_theorems = []
+    # how far a STORE_* macro of lib/port/byte_code.h advances the code pointer = what ins_* writes (MEASURED by
+    # running the macro in the probe, not copied)
+    _adv = "({ char b_[64]; char *pc_ = b_; %s v_ = 0; %s (pc_, v_); (long) (pc_ - b_); })"
     consts = [("maxline", "MAXLINE"), ("defmax", "DEFMAX"), ("startBlockSize", "START_BLOCK_SIZE"),
-              ("numAreas", "NUMAREAS"), ("scratchpadSize", "SCRATCHPAD_SIZE")]
-    const_headers = ["lib/lpc/lex.h", "lib/lpc/compiler.h", "lib/misc/scratchpad.h"]
-    quick_n = 900
+              ("numAreas", "NUMAREAS"), ("scratchpadSize", "SCRATCHPAD_SIZE"), ("mlen", "MLEN"), ("nargs", "NARGS"),
+              ("nsize", "NSIZE"),
+              ("wrShort", _adv % ("short", "STORE_SHORT")), ("wrInt", _adv % ("int", "STORE_INT")),
+              ("wrLong", _adv % ("int64_t", "STORE_LONG")), ("wrReal", _adv % ("double", "STORE_FLOAT")),
+              ("wrPtr", "(sizeof (intptr_t) == 4) ? " + _adv % ("intptr_t", "STORE4") + " : " + _adv % ("intptr_t", "STORE8"))]
+    const_headers = ["lib/lpc/lex.h", "lib/lpc/compiler.h", "lib/misc/scratchpad.h", "lib/port/byte_code.h"]
+    quick_n = 750
     thorough_n = 4000
     search_n = 600
     design_ref = "5/C02"
     technique = ("Lean 4 proof (invariants over all event sequences of the compiler's bookkeeping machines) + "
-                 "translator-generated constants + trace replay correspondence (hook H3) + sanitizer fuzzing "
+                 "translator-generated constants, located guards and measured store widths + trace replay correspondence (hook H3) + sanitizer fuzzing incl. byte-by-byte boundary sweeps "
                  "with a before/after probe program")
     level_text = ("PARTIAL.  Lean 4 theorems about an executable model of the LPC compiler's bookkeeping: locals tables "
                   "(sizes, cursors, add_local_name / pop_n_locals / reallocate_locals / function-literal enter+leave with "
                   "error-abandoned literals), mem_block doubling, include counter and stack, function-context stack, the "
                   "SAVEC bound on yytext, identifier sem_value references and bindings in every name space (local / function / global / class) with the "
-                  "dirty list of permanent identifiers; for ALL event sequences every table access "
+                  "dirty list of permanent identifiers; the lexer's text buffers (add_input in place / linked buffer, macro argument "
+                  "collector, macro body expansion, #define text, text block terminator, #include MACRO hops) and the code "
+                  "emitter's cursor (every ins_* width against the block end and the doubling); for ALL event sequences / character streams every table access "
                   "is inside its allocation and end-of-compile cleanup restores the initial configuration.  The model is "
                   "tied to the source by regenerated constants and by replaying the event stream emitted by the real "
-                  "compiler (hook H3) through the model: every (cursor, size) pair must be reproduced.  The Lean oracle "
+                  "compiler (hook H3) through the model: every (cursor, size) pair must be reproduced, incl. every add_input call; "
+                  "slack constants, guard presence and the reserved / written width of every ins_* are regenerated on every run.  The Lean oracle "
                   "judges every implementation trace; sources come from three fuzzers under ASan+UBSan with a per-case "
                   "timeout; a fixed probe program is compiled before and after each input and must dump identically, and an adaptive probe "
                   "(tiny programs mentioning every identifier the input declared, as rvalue / lvalue / functional / call / class "
                   "name) must have the same outcome as in a pristine sibling process that never saw the input.")
-    level_note = ("partial: the lexer's linked-buffer refill machine, macro expansion buffers, bison's stacks, the parse-tree "
-                  "and code generator (icode/generate, prog_code growth) and termination are NOT modelled - they are only "
-                  "observed under sanitizers and a timeout; the reusability half (probe program identical before/after) is "
-                  "exploration, not proof; the SAVEC bound is tied by a regenerated constant only (no trace point); "
-                  "trusted: Lean kernel, extract.py + the regexes of props/c02.py:gen_extra, the replay abstraction "
-                  "in NV/C02/Drive.lean (trace line -> event), the harness")
+    level_note = ("partial: refill_buffer's shift / include paths and the popping of linked buffers, bison's stacks, the parse "
+                  "trees, jump patching (upd_*) and switch tables of the code generator and termination are NOT modelled - "
+                  "they are only observed under sanitizers and a timeout; the macro / #define / terminator cursors are "
+                  "proved in the model and only their final values are observed on the real driver (no replay); the code "
+                  "emitter has no trace point (model + obligation on regenerated widths + boundary sweep); the reusability "
+                  "half (probe program identical before/after) is exploration, not proof; the SAVEC bound is tied by a "
+                  "regenerated constant only; trusted: Lean kernel, extract.py + the regexes of props/c02.py:gen_extra "
+                  "(a guard that is no longer located yields flag=false or a broken tie), the replay abstraction in "
+                  "NV/C02/Drive.lean (trace line -> event), the harness")
     rule = ("cases = corpus + known-finding inputs + boundary list + seeded sources from three generators: random bytes "
             "(raw and LPC alphabet), token-level mutation of valid LPC (examples/m3_mudlib + harness mudlib), grammar-level "
             "generator (nested function literals beyond MAX_FUNCTION_DEPTH, locals/arguments beyond MaxLocalVariables, "
@@ -107,10 +123,11 @@ class C02(Prop):
             "identifiers/lines around MAXLINE, many functions/strings to grow mem blocks); each case = probe, compile "
             "(sometimes two sources), probe; non-trivial = the fuzzed compile emitted at least 4 bookkeeping events; "
             "distinct = distinct canonical implementation trace")
-    not_covered = ["lexer buffer machine (refill_buffer/add_input linked buffers, DEFMAX/EXPANDMAX expansion buffers): sanitizer-observed only",
-                   "bison parser stacks (YYMAXDEPTH), parse trees, icode/generate code emission incl. prog_code growth: sanitizer-observed only",
-                   "termination of compilation: observed with a 20 s per-case timeout, not proved",
-                   "probe-program reusability check is exploration (one fixed probe + adaptive probe of at most 24 declared names), not proof",
+    not_covered = ["refill_buffer (head buffer shift, include resume, TERM_INCLUDE linked buffers) and the popping of linked buffers: sanitizer-observed only",
+                   "macro argument / body / #define text / terminator cursors: proved in the model over regenerated guards, on the real driver only the final cursor is observed",
+                   "bison parser stacks (YYMAXDEPTH), parse trees, upd_* jump patching and switch tables: sanitizer-observed only; the emitter's ins_* cursor is model + obligation + boundary sweep (no trace point)",
+                   "termination of compilation: observed with a 20 s per-case timeout, not proved (only #include MACRO hops are proved bounded)",
+                   "probe-program reusability check is exploration (one fixed probe + adaptive probe of at most 24 declared names), not proof; no single theorem 'state after cleanup = initial state' over all machines at once",
                    "MaxLocalVariables > 127 (num_local is saved in a `char` by the grammar) is not explored",
                    "errors raised by LPC code called during compilation (master log_error etc.) leave compile_file()'s static guard set; not explored",
                    "size_t / short overflow of counters (sem_value is a short) is not modelled"]
@@ -141,7 +158,120 @@ class C02(Prop):
         # the include-depth test must exist
         if not re.search(r"if\s*\(\s*(\+\+incnum\s*==|incnum\s*\+\s*1\s*>=)\s*MAX_INCLUDE_DEPTH\s*\)", lex):
             raise X.TieBroken("lex.c:handle_include depth test", "the include depth test in handle_include was not found")
+        out += self.gen_emit()
+        out += self.gen_lexbuf(lex)
         return "\n".join(out)
+
+    # ---- icode.c: what every ins_* reserves ------------------------------------
+    @staticmethod
+    def fn_body(text, name):
+        m = re.search(r"\n(?:static\s+)?[A-Za-z_][A-Za-z_0-9 \*]*?\b%s\s*\([^)]*\)\s*\{" % re.escape(name), text)
+        if not m:
+            return None
+        i = m.end()
+        depth = 1
+        while i < len(text) and depth:
+            depth += {"{": 1, "}": -1}.get(text[i], 0)
+            i += 1
+        return text[m.end():i]
+
+    def gen_emit(self):
+        ic = open(os.path.join(E.REPO, "lib/lpc/program/icode.c"), errors="replace").read()
+        out = []
+        for lean, fn in (("resShort", "ins_short"), ("resInt", "ins_int"), ("resLong", "ins_long"), ("resReal", "ins_real"),
+                         ("resPtr", "ins_intptr")):
+            body = self.fn_body(ic, fn)
+            if body is None:
+                raise X.TieBroken("icode.c:%s" % fn, "cannot locate %s() in icode.c" % fn)
+            if fn == "ins_intptr":
+                # the branch compiled on this platform (64-bit pointers)
+                k = body.find("UINTPTR_MAX == UINT64_MAX")
+                body = body[k:] if k >= 0 else body
+            m = re.search(r"if\s*\(\s*prog_code\s*\+\s*(\d+)\s*>\s*prog_code_max\s*\)", body)
+            if not m:
+                raise X.TieBroken("icode.c:%s room test" % fn,
+                                  "the test `prog_code + N > prog_code_max` in front of the store of %s() was not found: "
+                                  "what the function reserves can no longer be read from the source" % fn)
+            st = re.search(r"\bSTORE\w*\s*\(", body)
+            if not st or st.start() < m.start():
+                raise X.TieBroken("icode.c:%s order" % fn, "the store of %s() is no longer behind its room test" % fn)
+            out.append("/-- source: icode.c:%s `prog_code + %s > prog_code_max` -/\ndef %s : Nat := %s" % (fn, m.group(1), lean, m.group(1)))
+        body = self.fn_body(ic, "ins_byte")
+        if body is None or not re.search(r"if\s*\(\s*prog_code\s*==\s*prog_code_max\s*\)", body):
+            raise X.TieBroken("icode.c:ins_byte room test", "the test `prog_code == prog_code_max` of ins_byte() was not found")
+        return out
+
+    # ---- lex.c: slack constants and guards of the text buffers --------------------
+    def gen_lexbuf(self, lex):
+        out = []
+
+        def const(name, rx, site, body=None, flags=0):
+            m = re.search(rx, body if body is not None else lex, flags)
+            if not m:
+                raise X.TieBroken(site, "cannot locate %s in the source" % site)
+            out.append("/-- source: %s -/\ndef %s : Nat := %d" % (site, name, int(m.group(1))))
+
+        def flag(name, present, site):
+            out.append("/-- source: %s (guard present?) -/\ndef %s : Bool := %s" % (site, name, "true" if present else "false"))
+        ai = self.fn_body(lex, "add_input")
+        if ai is None:
+            raise X.TieBroken("lex.c:add_input", "cannot locate add_input()")
+        const("addMaxSlack", r"if\s*\(\s*len\s*>=\s*DEFMAX\s*-\s*(\d+)\s*\)", "lex.c:add_input `len >= DEFMAX - N`", ai)
+        const("addFrontSlack", r"if\s*\(\s*outptr\s*<\s*len\s*\+\s*(\d+)\s*\+\s*cur_lbuf->buf\s*\)", "lex.c:add_input `outptr < len + N + buf`", ai)
+        const("addLineSlack", r"\(\s*\(q\s*-\s*outptr\)\s*\+\s*len\s*\)\s*>=\s*DEFMAX\s*-\s*(\d+)", "lex.c:add_input `(q - outptr) + len >= DEFMAX - N`", ai)
+        const("addEndSlack", r"buf_end\s*=\s*buf\s*\+\s*DEFMAX\s*-\s*(\d+)\s*\)\s*-\s*1", "lex.c:add_input `buf_end = buf + DEFMAX - N`", ai)
+        m = re.search(r"new_outp\s*=\s*new_lbuf->outptr\s*=\s*buf\s*\+\s*DEFMAX\s*-\s*(\d+)\s*-\s*size", ai)
+        m2 = re.search(r"buf_end\s*=\s*buf\s*\+\s*DEFMAX\s*-\s*(\d+)\s*\)\s*-\s*1", ai)
+        if not m or m.group(1) != m2.group(1):
+            raise X.TieBroken("lex.c:add_input new_outp", "new_outp is no longer `buf + DEFMAX - N - size` with the N of buf_end")
+        if not re.search(r"size\s*=\s*\(q\s*-\s*outptr\)\s*\+\s*len\s*\+\s*1\s*;", ai):
+            raise X.TieBroken("lex.c:add_input size", "`size = (q - outptr) + len + 1` not found")
+        ed = self.fn_body(lex, "expand_define")
+        if ed is None:
+            raise X.TieBroken("lex.c:expand_define", "cannot locate expand_define()")
+        gs = [int(x) for x in re.findall(r"if\s*\(\s*q\s*>=\s*expbuf\s*\+\s*DEFMAX\s*-\s*(\d+)\s*\)", ed)]
+        if not gs:
+            raise X.TieBroken("lex.c:expand_define argument guard", "no `q >= expbuf + DEFMAX - N` test found")
+        out.append("/-- source: lex.c:expand_define weakest `q >= expbuf + DEFMAX - N` -/\ndef argSlack : Nat := %d" % min(gs))
+        top = re.search(r"for\s*\(\s*n\s*=\s*0\s*;\s*n\s*<\s*NARGS\s*;\s*\)\s*\{\s*(?:/\*.*?\*/\s*)*(?:#ifdef[^\n]*\n[^#]*#endif\s*)?if\s*\(\s*q\s*>=\s*expbuf\s*\+\s*DEFMAX",
+                        ed, re.S)
+        flag("argGuardAtTop", bool(top), "lex.c:expand_define test at the start of every round of the argument loop")
+        inner = re.search(r"if\s*\(\s*q\s*>=\s*expbuf\s*\+\s*DEFMAX\s*-\s*\d+\s*\)\s*\{[^}]*\}\s*else\s*\{\s*\*q\+\+\s*=\s*\(char\)\s*c\s*;", ed)
+        flag("argInnerGuard", bool(inner), "lex.c:expand_define test in front of the ordinary store")
+        # expansion loop: every `*b++ = ...` store must be followed by the `b >= buf + DEFMAX` test
+        exp = ed[ed.find("/* Do expansion */"):] if "/* Do expansion */" in ed else None
+        if exp is None:
+            raise X.TieBroken("lex.c:expand_define expansion loop", "cannot locate the expansion loop")
+        g = r"\s*if\s*\(\s*b\s*>=\s*buf\s*\+\s*DEFMAX\s*\)"
+        flag("bodyGuardMarks", bool(re.search(r"\*b\+\+\s*=\s*\*e\+\+\s*;" + g + r"[^}]*\}\s*\}\s*else\s*\{\s*for", exp)), "lex.c:expand_define MARKS MARKS store")
+        flag("bodyGuardArg", bool(re.search(r"\*b\+\+\s*=\s*\*q\+\+\s*;" + g, exp)), "lex.c:expand_define argument copy store")
+        flag("bodyGuardLit", len(re.findall(r"\*b\+\+\s*=\s*\*e\+\+\s*;" + g, exp)) >= (2 if re.search(r"\*b\+\+\s*=\s*\*e\+\+\s*;" + g + r"[^}]*\}\s*\}\s*else\s*\{\s*for", exp) else 1)
+             and len(re.findall(r"\*b\+\+\s*=\s*\*e\+\+\s*;", exp)) == 2, "lex.c:expand_define literal store")
+        hd = self.fn_body(lex, "handle_define")
+        if hd is None:
+            raise X.TieBroken("lex.c:handle_define", "cannot locate handle_define()")
+        gs = [int(x) for x in re.findall(r"if\s*\(\s*q\s*<\s*mtext\s*\+\s*MLEN\s*-\s*(\d+)\s*\)", hd)]
+        if len(gs) != 2:
+            raise X.TieBroken("lex.c:handle_define guards", "expected two `q < mtext + MLEN - N` tests, found %d" % len(gs))
+        out.append("/-- source: lex.c:handle_define function-like loop `q < mtext + MLEN - N` -/\ndef defFnSlack : Nat := %d" % gs[0])
+        out.append("/-- source: lex.c:handle_define object-like loop `q < mtext + MLEN - N` -/\ndef defObjSlack : Nat := %d" % gs[1])
+        gt = self.fn_body(lex, "get_terminator")
+        if gt is None:
+            raise X.TieBroken("lex.c:get_terminator", "cannot locate get_terminator()")
+        m = re.search(r"if\s*\(\s*j\s*>=\s*(MAXLINE(?:\s*[-+]\s*\d+)?)\s*\)\s*return", gt)
+        flag("termGuard", bool(m), "lex.c:get_terminator `j >= LIMIT` before the store")
+        lim = m.group(1) if m else "MAXLINE"
+        mm = re.search(r"#define\s+MAXLINE\s+(\d+)", open(os.path.join(E.REPO, "lib/lpc/lex.h")).read())
+        out.append("/-- source: lex.c:get_terminator limit `%s` -/\ndef termLimit : Nat := %d" % (lim, eval(lim.replace("MAXLINE", mm.group(1)))))
+        const("termBufSize", r"static\s+char\s+terminator\s*\[\s*MAXLINE\s*\+\s*(\d+)\s*\]", "lex.c:yylex `terminator[MAXLINE + N]` (N)")
+        hi = self.fn_body(lex, "handle_include")
+        if hi is None:
+            raise X.TieBroken("lex.c:handle_include", "cannot locate handle_include()")
+        m = re.search(r"macro_hops\+\+\s*<\s*MAX_INCLUDE_DEPTH", hi)
+        recursive = bool(re.search(r"\bhandle_include\s*\(\s*q\s*,", hi))
+        flag("includeHopGuard", bool(m) and not recursive, "lex.c:handle_include bounded `#include MACRO` loop")
+        out.append("/-- source: lex.c:handle_include hop limit = MAX_INCLUDE_DEPTH -/\ndef includeHopLimit : Nat := maxIncludeDepth")
+        return out
 
     # ---- implementation / model ---------------------------------------------
     def prepare(self, ctx):
@@ -283,6 +413,48 @@ class C02(Prop):
             mk("pad-edge-string-%d" % e, padfill([e], '"%s"' % ("s" * 200), nfull=15))
         for e in range(238, 255):
             mk("pad-edge-ident-%d" % e, padfill([60], "z" * e, nfull=15))
+        # extend round: the text buffers of the preprocessor (F22 - F27) at their edges
+        mk("include-macro-self", "#define X X\n#include X\nint a;\n")
+        mk("include-macro-cycle", "#define A B\n#define B C\n#define C A\n#include A\nint a;\n")
+        mk("include-macro-chain", "#define A B\n#define B \"inc0.h\"\n#include A\nint a;\n", [("inc0.h", "int inc0;\n")])
+        for n in (1000, 1019, 1023, 1024, 1025, 1030, 3001):
+            body = "a" * n
+            cont = "\\\n".join(body[i:i + 900] for i in range(0, n, 900))
+            mk("terminator-macro-%d" % n, "#define M @%s\nstring f() { return M\nfoo\n%s\n; }\n" % (cont, body))
+        for c in (9960, 9975, 9980, 9984, 9985, 9990):
+            body = "1" * c
+            lines = "\n".join(body[i:i + 900] for i in range(0, c, 900))
+            for commas in (1, 24, 25):
+                mk("macro-arg-%d-commas-%d" % (c, commas), "#define F(a) a\nint x = F(" + lines + "," * commas + ");\n")
+            mk("macro-arg-%d-hash" % c, "#define F(a) a\nint x = F(" + lines + "##" * 4 + ");\n")
+            mk("macro-arg-%d-bslash" % c, "#define F(a) a\nint x = F(" + lines + ' "' + "\\\\" * 4 + '");\n')
+        for p_ in range(4, 13):
+            mk("macro-body-marks-%d" % p_, "#define G(a) a a a a a a a a a a" + "+" * p_ + "@\nint x = G(" + "b" * 998 + ");\n")
+            mk("macro-body-arg-%d" % p_, "#define G(a) a a a a a a a a a" + "+" * p_ + "a\nint x = G(" + "b" * 998 + ");\n")
+        for c in range(4084, 4096):
+            txt = "x" * c
+            lines = "\\\n".join(txt[i:i + 900] for i in range(0, c, 900))
+            mk("define-text-param-at-%d" % c, "#define H(a) " + lines + " a@\nint y;\n")
+            mk("define-text-obj-%d" % c, "#define H " + lines + "@\nint y;\n")
+        mk("define-empty-continuation", "#define K a\\\n\nint y;\n")
+        mk("define-fn-empty-continuation", "#define K(a) a\\\n\nint y = K(1);\n")
+        mk("define-continuation-eof", "#define K a\\")
+        # add_input: expansions that no longer fit in front of the cursor (linked buffer) and their neighbours
+        for n in (900, 1000, 1010):
+            mk("add-input-linked-%d" % n, "#define A %s\n#define B A A A A A A\nint x; string s = \"B\"; int y = 0 B;\n" % ("+1" * (n // 2)))
+        mk("add-input-recursive", "#define R R R\nint x = R;\n")
+        mk("add-input-text-block-tail", "string f() { return @END\n%s\nEND + \"tail\"; }\n" % "\n".join("line %d" % i for i in range(700)))
+        # add_input's rest-of-line test at its edge: expansion of 9853 bytes + d more characters on the line
+        for d in range(130, 150):
+            mk("add-input-line-edge-%d" % d, "#define G(a) a a a a a a a a a a a a\nint x = G(" + "b" * 820 + ");" + " " * (d - 1) + "\nint y;\n")
+        # an item that makes the block grow, followed by enough code to reach the end of the grown block
+        for kind, expr in self.EMIT_KINDS[:6]:
+            for t in (25, 27, 29, 31):
+                B.append(self.emit_case("b-emit-%s-%d-then" % (kind, t), expr, 1012, t, "boundary", tail=1100))
+        # extend round: every kind of emitted item across every alignment of the first code block boundary
+        for kind, expr in self.EMIT_KINDS:
+            for t in range(20, 48):
+                B.append(self.emit_case("b-emit-%s-%d" % (kind, t), expr, 1012, t, "boundary"))
         mk("include-ends-in-comment", '#include "c.h"\nint after;\n', [("c.h", "int inc_var; // trailing comment without newline")])
         mk("file-ends-in-comment", "int x; // no newline at end")
         mk("two-sources", "void f() { int time; { int time; } }", second="int g() { return time(); }")
@@ -290,6 +462,29 @@ class C02(Prop):
         mk("nul-bytes", "int x;\x00\x00 int y;\n")
         mk("high-bytes", "int \xff\xfe x; string s = \"\xe4\xb8\xad\";\n")
         return B
+
+    # what is emitted right behind the padding: (name, statement); the item widths are ins_byte/short/int/long/real/intptr
+    EMIT_KINDS = [("real", "return 1.5;"), ("int", "return 70000;"), ("long", "return 5000000000;"), ("short", "return 300;"),
+                  ("string", "return \"s\";"), ("funptr", "return (: q :);"), ("branch", "if (x) return 1; return 2;"),
+                  ("switch", "switch (x) { case 1: return 1; case 70000: return 2; default: return 3; }")]
+
+    @staticmethod
+    def emit_pad(p, unit="a=b;"):
+        out = []
+        i = 0
+        while p > 0:
+            k = min(p, 100)
+            out.append("void p%d() { int a, b;\n%s}\n" % (i, (unit + "\n") * k))
+            p -= k
+            i += 1
+        return "".join(out)
+
+    def emit_case(self, cid, stmt, p, t, origin, kind="emit", tail=0):
+        """p four-byte statements, then t one-byte operators, then the item: sweeping t moves the item byte by byte"""
+        text = self.emit_pad(p) + "void q() { int a, b; a = %sb; }\n" % ("~ " * t) + "mixed f(int x) { %s }\n" % stmt
+        if tail:
+            text += self.emit_pad(tail).replace("void p", "void tl")
+        return E.Case(cid, ["probe"] + src_lines(text) + ["compile", "probe"], {"origin": origin, "kind": kind})
 
     @staticmethod
     def nest(n, body="return 1;"):
@@ -524,9 +719,14 @@ class C02(Prop):
     def generate(self, rng, n, tier):
         out = []
         for i in range(n):
-            k = rng.weighted([("bytes", 2), ("tok", 4), ("gram", 9)])
+            k = rng.weighted([("bytes", 2), ("tok", 4), ("gram", 9), ("emit", 1)])
             cid = "g%d" % i
-            if k == "bytes":
+            if k == "emit":
+                # an item of a random kind close to a code block boundary (4096, 8192, 16384)
+                kind, stmt = rng.choice(self.EMIT_KINDS)
+                bnd = rng.weighted([(4096, 4), (8192, 2), (16384, 1)])
+                out.append(self.emit_case(cid, stmt, (bnd - 48) // 4 - (bnd // 400), rng.below(64), "generated", "emit-%d" % bnd))
+            elif k == "bytes":
                 out.append(self.gen_bytes(rng, cid))
             elif k == "tok":
                 out.append(self.gen_tokmut(rng, cid))
